@@ -29,6 +29,7 @@ type Agg struct {
 	Hashes     map[uint64]struct{}
 	Samples    []json.RawMessage
 	Incon      map[string]int64
+	Maxes      map[string]int64
 	Viol       []Violation
 	Notes      []string               // COVERAGE-NOTE lines
 	Extra      map[string]interface{} // extra evidence coverage keys
@@ -38,7 +39,7 @@ type Agg struct {
 
 func newAgg(env *Env, p *Prop) *Agg {
 	return &Agg{Env: env, Prop: p, Counters: map[string]int64{}, Seen: map[string]map[string]int64{},
-		Hashes: map[uint64]struct{}{}, Incon: map[string]int64{}, Extra: map[string]interface{}{}}
+		Hashes: map[uint64]struct{}{}, Incon: map[string]int64{}, Maxes: map[string]int64{}, Extra: map[string]interface{}{}}
 }
 
 func (a *Agg) merge(cp *checkpoint) {
@@ -69,6 +70,11 @@ func (a *Agg) merge(cp *checkpoint) {
 	}
 	for k, v := range cp.Incon {
 		a.Incon[k] += v
+	}
+	for k, v := range cp.Maxes {
+		if old, ok := a.Maxes[k]; !ok || v > old {
+			a.Maxes[k] = v
+		}
 	}
 	a.Viol = append(a.Viol, cp.Viol...)
 }
@@ -628,6 +634,9 @@ func report(agg *Agg, known []knownFinding, wall time.Duration) int {
 	}
 	cov["seen"] = seenOut
 	cov["inconclusive"] = agg.Incon
+	if len(agg.Maxes) > 0 {
+		cov["maxima"] = agg.Maxes
+	}
 	cov["known_findings_seen"] = knownSeen
 	cov["coverage_notes"] = agg.Notes
 	cov["new_violations"] = violSummaries
